@@ -84,10 +84,22 @@ theorem ruleDeps_np (ev : EvalExpr) (flat : Flat) (d : Option String) : NoPanic 
   · exact NoPanic.map _ (liftX_np _ _)
   · exact np_ok _
 
+theorem finishRule_np (r : NinjaRule) : NoPanic (finishRule r) := by
+  unfold finishRule
+  split
+  · exact np_ok _
+  · exact np_err _
+
+theorem customCmd_np (cb : CustomBuild) (c : String) : NoPanic (customCmd cb c) := by
+  unfold customCmd
+  split
+  · exact np_err _
+  · exact np_ok _
+
 theorem ruleToNinja_np (ev : EvalExpr) (rule : Rule) (flat : Flat) : NoPanic (ruleToNinja ev rule flat) := by
   unfold ruleToNinja
   exact NoPanic.bind (applyExports_np _ _ _) fun _ => NoPanic.bind (liftX_np _ _) fun _ =>
-    NoPanic.bind (ruleDeps_np _ _ _) fun _ => np_ok _
+    NoPanic.bind (ruleDeps_np _ _ _) fun _ => finishRule_np _
 
 
 /-- `match x with | .error e => .error e | .ok v => …` with a panic-free `x`: the error case is
@@ -242,7 +254,7 @@ theorem customBuildStep_np (ev : EvalExpr) (flat : Flat) (m : Module) (srcdir : 
   split
   · exact np_err _
   unfold customBuildStepCore
-  exact NoPanic.bind (unwrapX_np _ _) fun _ =>
+  exact NoPanic.bind (unwrapX_np _ _) fun _ => NoPanic.bind (customCmd_np _ _) fun _ =>
     NoPanic.bind (np_mapM (fun _ => unwrapX_np _ _) _) fun _ =>
     NoPanic.bind (np_mapM (fun _ => unwrapX_np _ _) _) fun _ => np_ok _
 
